@@ -53,6 +53,7 @@ def cases(tier, seed):
             out.append(('record', fam, th, tier, 0))
         out.append(('fitted', fam, 0.0, tier, 0))
         out.append(('tau0', fam, 0.0, tier, 0))
+        out.append(('reassigned', fam, 0.0, tier, 0))
     return out
 
 
@@ -170,6 +171,48 @@ def run_case(case):
                             f'of the independence copula (first rows {out[:2].tolist() if out.ndim == 2 else out[:2]!r})', case=case)
         r.hit('tau0')
         r['sample'] = {'mode': mode, 'family': fam}
+        return r
+    if mode == 'reassigned':
+        # ONE object that has sampled and answered queries is given the thetas of the alphabet one after the other (forwards
+        # and back) by plain attribute assignment: under the same seed it samples exactly what a fresh object of that theta
+        # samples (nothing computed for an earlier theta survives)
+        ths = sorted(A.THETAS[tier][fam])
+        order = ths + ths[::-1][1:]
+        cop = make_biv(fam, order[0], random_state=5)
+        for step, t in enumerate(order):
+            cop.theta = t
+            cop.tau = float(Ref(fam, t).tau())
+            fresh = make_biv(fam, t, random_state=5)
+            cop.set_random_state(5)
+            r.tr(2)
+            r.ev()
+            r.state((fam, 'reassigned', step, t))
+            try:
+                a = np.asarray(cop.sample(40), float)
+                cop.partial_derivative(np.array([[0.3, 0.6]]))
+                cop.probability_density(np.array([[0.3, 0.6]]))
+            except Exception as e:
+                a = e
+            try:
+                b = np.asarray(fresh.sample(40), float)
+            except Exception as e:
+                b = e
+            if isinstance(a, Exception) or isinstance(b, Exception):
+                if type(a) is not type(b):
+                    r.violation(f'{sig}:reassigned-theta', f'{fam}: an object re-parameterised '
+                                f'{" -> ".join(map(str, order[max(0, step - 2):step + 1]))}: sample '
+                                f'{"raised " + type(a).__name__ if isinstance(a, Exception) else "succeeded"}, a fresh theta={t} '
+                                f'object {"raised " + type(b).__name__ if isinstance(b, Exception) else "succeeded"}', case=case)
+                    break
+                continue
+            if a.shape != b.shape or not np.allclose(a, b, rtol=0, atol=1e-9, equal_nan=True):
+                i = int(np.argmax(np.abs(a - b).max(axis=1))) if a.shape == b.shape else 0
+                r.violation(f'{sig}:reassigned-theta', f'{fam}: an object re-parameterised '
+                            f'{" -> ".join(map(str, order[max(0, step - 2):step + 1]))} samples row {a[i].tolist() if a.ndim == 2 else a!r} '
+                            f'under seed 5, a fresh theta={t} object {b[i].tolist() if b.ndim == 2 else b!r}', case=case)
+                break
+        r.hit('reassigned')
+        r['sample'] = {'mode': mode, 'family': fam, 'thetas': len(order)}
         return r
     if mode == 'record':
         ref = Ref(fam, th)
